@@ -1,6 +1,6 @@
 (* C31: the recorded defect (class 3), exhibited on the model by evaluation; its witness is
    also a replay line of known_findings.d/C31.json and is run on the real code by ./check.
-   The former classes 1 and 2 (repaired in /repo by f7ee439 and b5de181) are kept as
+   The former classes 1 and 2 (repaired in /repo by b2f9dd3 and 43a41a5) are kept as
    historical witnesses: on the repaired model they round-trip. *)
 From Coq Require Import ZArith List Bool.
 From TV Require Import Lib.MachInt Model.Record.
@@ -27,14 +27,14 @@ Proof.
   intros [b [Hb Hx]]. vm_compute in Hb. inversion Hb; subst b. vm_compute in Hx. discriminate Hx.
 Qed.
 
-(* historical (F-C31-1, fixed by f7ee439): a lone empty string used to come back as NULL *)
+(* historical (F-C31-1, fixed by b2f9dd3): a lone empty string used to come back as NULL *)
 Lemma fixed_empty_var_only_l :
   fits_row [TText] [VText []] = true /\ known_class [TText] [VText []] = 0 /\
   build_fresh [TText] [VText []] = Ok [5; 0; 0; 0; 0] /\
   extract [TText] [5; 0; 0; 0; 0] = Ok [VText []].
 Proof. vm_compute. repeat split. Qed.
 
-(* historical (F-C31-2, fixed by b5de181): 1.5 in a Float4 column used to read back as 0.0, and
+(* historical (F-C31-2, fixed by 43a41a5): 1.5 in a Float4 column used to read back as 0.0, and
    to panic when alone in the row; now it is stored as the f32 0x3FC00000 *)
 Lemma fixed_float4_l :
   fits_row [TFloat4; TInt8] [VFloat 4609434218613702656; VInt 3] = true /\
